@@ -636,6 +636,41 @@ theorem interp_after_remove_uses_old_spline_counterexample :
         [1] [20]).1 = some [some (1/2)] := by
   decide +kernel
 
+section selectorder
+variable {α β : Type} [Field α] [LinearOrder α] [IsStrictOrderedRing α]
+
+/-- `select` on a grouped map (`is_grouped()`: "sorted and grouped") does not depend on the order in which the
+    markers are listed in the index array: any rearrangement of the indices — ascending, as `prune` passes them, or in
+    any other order, as a caller may — gives the SAME object (stored arrays, riding columns, metadata, spline), hence
+    the same sequential distances over its own markers, the same congruence, the same answers; and that object's
+    metadata describe its arrays and its labels are sorted -/
+theorem select_order_independent (m : MapObj α β) (hg : m.grouped = true) (hv : NoDupPhys m.rows)
+    (idx idx' : List Nat) (hi : idx.Nodup) (hp : idx.Perm idx') :
+    m.select idx = m.select idx' ∧ (m.select idx).MetaOk ∧
+      ((m.select idx).rows.map (·.chr)).Pairwise (· ≤ ·) := by
+  refine ⟨MapObj.select_perm_eq m hg hp (noDupPhys_take hv hi), MapObj.metaOk_select m idx, ?_⟩
+  have : (m.select idx).rows = construct (Np.take idx m.rows) := by
+    simp [MapObj.select, MapObj.regroup, hg]
+  rw [this]
+  exact construct_labels_sorted _
+
+/-- … whereas an UNGROUPED map keeps its rows in the order of the index array (and stays ungrouped: nothing is
+    claimed about the order of its rows) -/
+theorem select_ungrouped_keeps_supplied_order (m : MapObj α β) (hg : m.grouped = false) (idx : List Nat) :
+    (m.select idx).rows = Np.take idx m.rows ∧ (m.select idx).grouped = false :=
+  MapObj.select_ungrouped_rows m hg idx
+
+end selectorder
+
+-- non-vacuity: a grouped three-chromosome map, indices interleaving the chromosomes
+example : (MapObj.new ([⟨1, 10, 0, ()⟩, ⟨1, 20, 1/8, ()⟩, ⟨2, 5, 0, ()⟩, ⟨2, 9, 1/4, ()⟩, ⟨3, 7, 1/8, ()⟩, ⟨3, 70, 3/4, ()⟩] :
+      List (Row ℚ Unit))).grouped = true ∧
+    ((MapObj.new ([⟨1, 10, 0, ()⟩, ⟨1, 20, 1/8, ()⟩, ⟨2, 5, 0, ()⟩, ⟨2, 9, 1/4, ()⟩, ⟨3, 7, 1/8, ()⟩, ⟨3, 70, 3/4, ()⟩] :
+      List (Row ℚ Unit))).select [5, 2, 0, 4, 3]).rows =
+      [⟨1, 10, 0, ()⟩, ⟨2, 5, 0, ()⟩, ⟨2, 9, 1/4, ()⟩, ⟨3, 7, 1/8, ()⟩, ⟨3, 70, 3/4, ()⟩] ∧
+    [5, 2, 0, 4, 3].Perm [0, 2, 3, 4, 5] ∧ [5, 2, 0, 4, 3].Nodup := by
+  refine ⟨by decide +kernel, by decide +kernel, by decide, by decide⟩
+
 /-! ## 3c. Group metadata as an attribute of its own: derived maps (`interp_gmap`), closure of the laws -/
 section metadata
 variable {α β : Type} [Field α] [LinearOrder α] [IsStrictOrderedRing α]
@@ -827,6 +862,29 @@ theorem xoprob_def (f : α → α) (rows : List (Row α β)) (qchr : List Int) (
     show (interpXoprob id f rows qchr qphy).2[i + 1]? = _
     rw [interpXoprob_snd, List.getElem?_map, gdist1g_succ]
     cases (qchr.zip g)[i + 1]? <;> cases (qchr.zip g)[i]? <;> simp [mapD_seqDist]
+
+/-- the genotype matrix as an object with a history (`group_vrnt()`, then its chromosome labels re-assigned through
+    the `vrnt_chrgrp` property, then `interp_xoprob`): the call raises exactly when the object was never grouped, and
+    otherwise the result is `interpXoprob` of the labels the object holds AT THE TIME OF THE CALL — whatever start
+    indices `group_vrnt()` cached under the earlier labels.  So `xoprob_def` holds with the current labels: one half at
+    every index where the CURRENT label differs from its predecessor's, the map function of consecutive interpolated
+    distances elsewhere. -/
+theorem xoprob_after_relabel (f : α → α) (rows : List (Row α β)) (m : MatObj α) (chr' : List Int) :
+    ((m.groupVrnt.relabel chr').interpXoprob id f rows) = some (interpXoprob id f rows chr' m.phy) ∧
+    (m.stix = none → ((m.relabel chr').interpXoprob id f rows) = none) ∧
+    ∀ i, (interpXoprob id f rows chr' m.phy).2[i + 1]? =
+      ((chr'.zip (interpGenpos rows chr' m.phy))[i + 1]?).bind fun c =>
+        ((chr'.zip (interpGenpos rows chr' m.phy))[i]?).map fun p =>
+          if p.1 = c.1 then mapD f (subPos c.2 p.2) else GDist.fin half := by
+  refine ⟨rfl, ?_, (xoprob_def f rows chr' m.phy).2.2⟩
+  intro h
+  simp [MatObj.interpXoprob, MatObj.relabel, h]
+
+-- non-vacuity: grouped under labels 1, 1, 1, 2 (cached starts 0, 3), relabelled 11, 11, 12, 20 (starts 0, 2, 3)
+example : (({ chr := [1, 1, 1, 2], phy := [10, 20, 30, 5], stix := none } : MatObj ℚ).groupVrnt).stix = some [0, 3] ∧
+    (((({ chr := [1, 1, 1, 2], phy := [10, 20, 30, 5], stix := none } : MatObj ℚ).groupVrnt).relabel
+      [11, 11, 12, 20]).groupVrnt).stix = some [0, 2, 3] := by
+  decide +kernel
 
 end xoprob
 
